@@ -23,6 +23,7 @@ TRUSTED = ("CPython ast", "S1 layout", "assumption A1 (mesh variables of type d)
 TECHNIQUE = "static analysis: polynomial byte-effect identities between sibling branches; finite-case folding of the selection logic"
 
 from . import loader_folds as lfold
+from . import io_folds as iof
 from . import layout_folds as lay
 
 
@@ -34,15 +35,14 @@ def r1(run, tree):
 
 def r2(run, tree):
     run.rule("C13.R2", "selection normalisation", "D7", "", floor=12)
-    io2.check_descriptor_to_variables(run, tree)
+    iof.check_descriptor_to_variables(run, tree)
     lfold.check_load(run, tree)
 
 
 def r3(run, tree):
     run.rule("C13.R3", "inactive readers are inert (Loader.load fold: only initialised readers open files and see records)", "D7 fold + path rule", "", floor=3)
     lfold.check_load(run, tree)
-    from .loader_rules import check_reinitialisation
-    check_reinitialisation(run, tree)
+    iof.check_reader_initialize(run, tree)
 
 
 def check_derived_variables(run, tree):
@@ -76,7 +76,7 @@ def check_derived_variables(run, tree):
 
 def r4(run, tree):
     run.rule("C13.R4", "vector assembly; derived variables", "D7 folding over name sets + D1", "", floor=10)
-    io2.check_vector_assembly(run, tree)
+    iof.check_vector_assembly(run, tree)
     check_derived_variables(run, tree)
 
 
